@@ -212,4 +212,39 @@ theorem transaction_commit_future (h b k : List (Op α)) (hb : Balanced b) :
   exact ⟨s, s', _, _, _, hs, hs', naive_run_out_length _ _, naive_run_out_length _ _,
     naive_run_out_length _ _, by rw [hc, hc']⟩
 
+theorem absSaved_length (cur popped : List α) (ls : List (Nat × Nat)) :
+    (absSaved cur popped ls).length = ls.length := by
+  induction ls generalizing cur popped with
+  | nil => rfl
+  | cons p ls ih => obtain ⟨len, rem⟩ := p; simp [absSaved, ih]
+
+/-- **No bookkeeping leaks.** After every history the real stack holds exactly one `(len, remained)`
+pair per open snapshot of the specification, and once no snapshot is open (every transaction
+committed or aborted) the `popped` side vector is empty again — whatever happened inside. -/
+theorem bookkeeping_no_leak (ops : List (Op α)) :
+    ∃ s os, run Stk.new ops = some (s, os) ∧
+      s.lengths.length = (Naive.run Naive.new ops).1.saved.length ∧
+      ((Naive.run Naive.new ops).1.saved = [] → s.popped = [] ∧ s.lengths = []) := by
+  obtain ⟨s, h1, hi, h3⟩ := run_refines_from (Stk.new : Stk α) ops inv_init
+  have e : abs (Stk.new : Stk α) = Naive.new := rfl
+  rw [e] at h1 h3
+  have hl : s.lengths.length = (Naive.run Naive.new ops).1.saved.length := by
+    rw [← h3]; simp [abs, absSaved_length]
+  refine ⟨s, _, h1, hl, ?_⟩
+  intro hs
+  rw [hs] at hl
+  have hn : s.lengths = [] := List.eq_nil_of_length_eq_zero hl
+  refine ⟨?_, hn⟩
+  have := hi
+  unfold StkInv at this
+  rw [hn] at this
+  simp [StkInvL] at this
+  exact this
+
+/-- In particular a balanced history from the empty stack leaves no bookkeeping behind. -/
+theorem balanced_no_leak (b : List (Op α)) (hb : Balanced b) :
+    ∃ s os, run Stk.new b = some (s, os) ∧ s.popped = [] ∧ s.lengths = [] := by
+  obtain ⟨s, os, h1, -, h3⟩ := bookkeeping_no_leak b
+  exact ⟨s, os, h1, h3 (naive_balanced_saved b hb Naive.new)⟩
+
 end PestModel.C11
